@@ -1,7 +1,7 @@
 """C01 — building a project is total: a catalog or a located error, never a crash or hang."""
 import random
 from common import *
-import treecorr, docgen, layout, scancorr
+import treecorr, docgen, layout, scancorr, stress
 import importlib
 C09 = importlib.import_module("checks.C09")
 C14 = importlib.import_module("checks.C14")
@@ -30,7 +30,7 @@ ONCE_CRASHING = [
 
 
 def matches_finding(v, f):
-    return v.get("class") == f.get("class")
+    return v.get("class") == f.get("class") or v.get("class") in f.get("classes", [])
 
 
 def run(tier, out, model_ok, proof):
@@ -89,6 +89,32 @@ def run(tier, out, model_ok, proof):
     cases.append(treecorr.single_file_case("big2", b"JSIGHT 0.3\n" + b"#" * 200000 + b"\n"))
     cases.append(treecorr.single_file_case("big3", b"JSIGHT 0.3\nGET /a\n  Description\n" + b"  text line\n" * 20000))
     res, crashes = docgen.run_build(cases, timeout=900)
+    # dependency-shaped documents, one worker each: a build that does not return in 40 s is a hang;
+    # a catalog more than 1000 times the size of the project is an output blow-up
+    scases = [treecorr.project_case("st_" + n, f) for n, f in stress.projects(big)]
+    sres, scr = docgen.run_build(scases, timeout=40, min_shard=1, shards=16)
+    stress_rows = []
+    for c in scases:
+        fam = stress.family(c["id"][3:])
+        size = sum(len(h) // 2 for h in c["files"].values())
+        show = {n: bytes.fromhex(h).decode("latin1")[:400] for n, h in c["files"].items()}
+        if c["id"] in scr:
+            out.violations.append({"what": "building the %d-byte project %s did not return within 40 s (%s)" % (size, c["id"][3:], scr[c["id"]][:40]),
+                                   "class": "hang:" + fam, "input": show, "input_hex": dict(c["files"])})
+            continue
+        r = sres.get(c["id"])
+        if r is None:
+            continue
+        olen = len(json.dumps(r.get("json"))) if r.get("json") is not None else 0
+        stress_rows.append({"project": c["id"][3:], "bytes": size, "ms": r.get("ms", 0), "catalog_bytes": olen, "end": r["end"]})
+        if r["end"] == "panic":
+            out.violations.append({"what": "panic: %s at %s" % (r.get("panic", "")[:100], r.get("site", "?")), "class": "panic@" + r.get("site", "?").split(" (")[0],
+                                   "input": show, "input_hex": dict(c["files"])})
+        elif olen > 1000 * size:
+            out.violations.append({"what": "the %d-byte project %s yields a catalog of %d bytes after %.0f ms" % (size, c["id"][3:], olen, r.get("ms", 0)),
+                                   "class": "output-blowup:" + fam, "input": show})
+        elif r.get("ms", 0) > 5000 + 2 * size:
+            out.violations.append({"what": "building the %d-byte project %s took %.0f ms" % (size, c["id"][3:], r.get("ms", 0)), "class": "slow:" + fam, "input": show})
     byid = {c["id"]: c for c in cases}
     kinds = {}
     slow = []
@@ -126,9 +152,10 @@ def run(tier, out, model_ok, proof):
     out.coverage.update({
         "evaluations": len(cases),
         "distinct_nontrivial": len(set(json.dumps(c["files"], sort_keys=True) for c in cases)),
-        "rule": "every formerly crashing input, a missing and an empty root file through kit.NewJapi, random bytes, directive-like documents, mutated corpus files, random directive sequences, arbitrary MACRO/PASTE graphs (chains into cycles, any declaration order), perturbed structured documents as files and include trees, include graphs with cycles/missing files/directories, three large inputs; each is built by kit.NewJApiFromFile in a worker whose death is attributed to the case; outcome must be catalog or error; wall time per case is recorded",
+        "rule": "every formerly crashing input, a missing and an empty root file through kit.NewJapi, random bytes, directive-like documents, mutated corpus files, random directive sequences, arbitrary MACRO/PASTE graphs (chains into cycles, any declaration order), perturbed structured documents as files and include trees, include graphs with cycles/missing files/directories, three large inputs, and dependency-shaped projects (chains of 10..40 user types in both orders, allOf/array/macro/include chains, rings, fan-outs, deep JSON; Fibonacci, or- and dense DAGs of types) each in a worker of its own with a 40 s limit; each is built by kit.NewJApiFromFile in a worker whose death is attributed to the case; outcome must be catalog or error; wall time per case is recorded",
         "samples": [{n: bytes.fromhex(h).decode("latin1")[:100] for n, h in c["files"].items()} for c in cases[14:17]],
         "outcomes": kinds,
+        "dependency_shaped_projects": stress_rows,
         "time_ms": {"median": ms[len(ms) // 2] if ms else 0, "p99": ms[int(len(ms) * 0.99)] if ms else 0, "max": ms[-1] if ms else 0},
         "traces_validated_against_impl": (len(tc) - len(mism)) if model_ok else 0,
         "correspondence_mismatches": len(mism),
